@@ -336,6 +336,8 @@ func GenTopLevel(r *RNG, depth int) (stmts []string, globals []string, feat map[
 	g.w("func isOdd(a int) bool {\n\treturn a%%2 != 0\n}\n")
 	g.w("func pair2(a int, b int) (int, int) {\n\treturn b, a + 1\n}\n")
 	g.w("func tri(a int) (int, int, int) {\n\treturn a, a + 1, a + 2\n}\n")
+	g.w("func halfF(n int) float64 {\n\tif n > 100000 {\n\t\treturn 3\n\t}\n\treturn 1\n}\n")
+	g.w("func wrapB(n int) byte {\n\treturn 250\n}\n")
 	nh := r.Intn(3)
 	for h := 0; h < nh; h++ {
 		g.w("func h%d(p int) int {\n", h)
